@@ -18,7 +18,7 @@ PROPS = {
                       "the code by running both on the same generated sequences (incl. short writes of the underlying writer, an underlying writer that is an io.ReaderFrom, before functions that panic, and in a quarter of the cases a second writer created over the first after the first has had a life of its own) and judging "
                       "the implementation's own outputs with the extracted executable spec",
         "level_note": "trusts the Coq kernel, extraction (ExtrOcamlBasic), the OCaml/Go glue and that sampled correspondence generalises; "
-                      "status codes are non-zero; hooks do not re-enter the writer; Hijack/Push not modelled",
+                      "status codes are non-zero; hooks do not re-enter the writer; Hijack/Push not modelled; in the stacked cases (a writer over a writer) the lower writer's before functions do not panic and a HEAD lower writer has a HEAD upper writer",
         "n_quick": 4000, "n_thorough": 60000, "exhaustive_in_thorough": True,
         "rule": "random op sequences (<=12 ops; WriteHeader codes 100..999, Write of 0..5 arbitrary bytes with an underlying writer that "
                 "sometimes accepts fewer, Flush, Before - one in five panicking -, Status, Size, Written) for HEAD and other methods, on an underlying writer that is an http.Flusher (four cases in five) or is not; thorough adds every sequence "
@@ -171,7 +171,7 @@ PROPS = {
         "n_quick": 5000, "n_thorough": 150000,
         "technique": "Coq proof (escape/unescape round trip by induction over all byte strings, finite hex-digit facts by computation) + correspondence on accessor outputs and a Set-Cookie/Cookie exchange",
         "level_text": "proof (partial): C18_cookie_roundtrip, C18_unescape_escape, C18_escaped_value_is_cookie_safe for every byte string; C18_default_rule_present/absent for the accessor rule; C18_query_parse_encode / C18_query_first_value / C18_query_all_values / C18_query_bad_piece_skipped for how a value is found in the raw query string (model of net/url.ParseQuery: Query.v); tied to the code by reading Query/QueryTrim/QueryUnescape/QueryBool/QueryInt/QueryInt64/Param/ParamInt/ParamInt64/Cookie with and without defaults for arbitrary byte strings (control bytes, separators, quotes, non-ASCII, huge numbers) and by feeding the Set-Cookie header back as a Cookie header",
-        "level_note": "trusts Coq kernel, extraction, glue; net/url escaping, strconv integer/bool parsing, strings.TrimSpace (ASCII and 2-byte Unicode spaces) and the cookie byte rule are re-implemented and validated by the correspondence; ParseFloat, url.Values query decoding and net/http's cookie header parsing are oracles (partial)",
+        "level_note": "trusts Coq kernel, extraction, glue; net/url escaping, url.ParseQuery with Values.Get (Query.v), strconv integer/bool parsing, strings.TrimSpace (ASCII and 2-byte Unicode spaces) and the cookie byte rule are re-implemented and validated by the correspondence; ParseFloat and net/http's cookie header parsing are oracles (partial)",
         "rule": "query value, path parameter and cookie value drawn from a 46-string pool (empty, spaces, %-sequences, booleans, decimal numbers incl. int64 boundaries and overflow, underscores, hex, control bytes, separators ; , space quote backslash, NUL, DEL, invalid UTF-8, 2-byte Unicode spaces) or random bytes; each default present half of the time; one case in five rewrites the query while the request is served and reads it again. Non-trivial: the cookie value contains a byte that needs escaping; distinct by input.",
         "what": "13 accessor outputs per case vs model; spec: no panic, cookie read back = value written, absent parameter yields the caller's default unchanged or zero.",
         "assumes": ["bytes are < 256"],
